@@ -95,15 +95,19 @@ class Exec(ExprMixin, CallMixin):
         a0 = z3.Int("alloc@entry")
         r = z3.Int("wf!r")
         j = z3.Int("wf!j")
+        # only for objects that exist at entry (0 < r <= alloc@entry): the fields of ids that are not allocated yet are left
+        # unconstrained - an allocation by a callee under contract "picks" an id whose fields already have the ensured
+        # values, which may well be references to other new objects
+        live = z3.And(0 < r, r <= a0)
         if isinstance(ty, TRef) and idx == "0":
-            self.entry_axioms.append(z3.ForAll([r], z3.And(arr[r] >= 0, arr[r] <= a0)))
+            self.entry_axioms.append(z3.ForAll([r], z3.Implies(live, z3.And(arr[r] >= 0, arr[r] <= a0))))
         elif isinstance(ty, TList) and isinstance(ty.elem, TRef) and idx == "0":
             self.entry_axioms.append(
-                z3.ForAll([r, j], z3.Implies(z3.And(0 <= j, j < z3.Length(arr[r])), z3.And(arr[r][j] > 0, arr[r][j] <= a0)))
+                z3.ForAll([r, j], z3.Implies(z3.And(live, 0 <= j, j < z3.Length(arr[r])), z3.And(arr[r][j] > 0, arr[r][j] <= a0)))
             )
         elif isinstance(ty, TDict) and isinstance(ty.val, TRef) and idx == "1":
             k = z3.Const("wf!k", arr.range().domain())
-            self.entry_axioms.append(z3.ForAll([r, k], z3.And(arr[r][k] >= 0, arr[r][k] <= a0)))
+            self.entry_axioms.append(z3.ForAll([r, k], z3.Implies(live, z3.And(arr[r][k] >= 0, arr[r][k] <= a0))))
 
     # ------------------------------------------------------------------ obligations
     def oblige(self, st, goal, name, kind="assert", line=None, props=None):
@@ -226,7 +230,7 @@ class Exec(ExprMixin, CallMixin):
                 self.cover["exits"] += 1
                 sv = z3.Solver()
                 sv.set("timeout", 3000)
-                sv.add(s2.pc)
+                sv.add(list(self.entry_axioms) + s2.hyps())  # exactly the hypotheses the obligations of this path are proved from
                 try:
                     r = sv.check()
                 except z3.Z3Exception:
@@ -345,6 +349,9 @@ class Exec(ExprMixin, CallMixin):
                 kk = z3.Const(fresh_name("k"), v.keys.sort().basis())
                 st.pc.append(z3.ForAll([jj], z3.Implies(z3.And(0 <= jj, jj < z3.Length(v.keys)), z3.Select(v.m, v.keys[jj]) > 0)))
                 st.pc.append(z3.ForAll([kk], z3.Select(v.m, kk) >= 0))
+                # ... and only the keys of the key sequence are present (representation invariant: absent key -> 0)
+                k3 = z3.Const(fresh_name("k"), v.keys.sort().basis())
+                st.pc.append(z3.ForAll([k3], z3.Implies(z3.Select(v.m, k3) != 0, z3.Contains(v.keys, z3.Unit(k3)))))
             j, k2 = z3.Ints(fresh_name("j") + " " + fresh_name("k"))
             st.pc.append(
                 z3.ForAll(
